@@ -577,7 +577,10 @@ impl Report {
         });
         let evdir = PathBuf::from(VERIF_ROOT).join("evidence");
         let _ = std::fs::create_dir_all(&evdir);
-        let evpath = evdir.join(format!("{prop}.json"));
+        // a secondary workload of the same property (run by ./check after the primary binary)
+        // writes its evidence under another name; the driver merges it into the primary file
+        let evname = std::env::var("VERIF_EVIDENCE_NAME").unwrap_or_else(|_| format!("{prop}.json"));
+        let evpath = evdir.join(evname);
         if self.args.replay.is_none() && !slice_mode {
             std::fs::write(&evpath, serde_json::to_string_pretty(&ev).unwrap()).expect("write evidence");
         }
